@@ -241,6 +241,20 @@ func runC03(r *simkit.Run, c Cfg) {
 			r.Probe("long-topic")
 		}
 	}
+	if c.Case < 0 && k.topic && tp.Chance(1, 6, "rawTopic") {
+		// a topic name that is not valid UTF-8 (the option takes any string):
+		// the publisher either refuses it, or serves heads that verify
+		raw := []string{"/indexer/\xff\xfe/mainnet", "\xc3\x28", "/indexer/ingest/main\x80net"}[tp.Choose(3, "rawTopic.i")]
+		probe := simkit.NewStore(r, "probe.store")
+		pp, err := ipnisync.NewPublisher(probe.LinkSystem(), p1.Priv, ipnisync.WithStartServer(false), ipnisync.WithHTTPListenAddrs("http://10.0.0.9:3104"), ipnisync.WithHeadTopic(raw))
+		if err != nil {
+			r.Probe("non-utf8-topic-refused-by-publisher")
+		} else {
+			pp.Close()
+			topic = raw
+			r.Probe("non-utf8-topic-accepted-by-publisher")
+		}
+	}
 	pub := w.NewPublisher(PubOpts{Name: "P1", Ident: p1, NAds: 1, Discovery: k.discovery, Hosts: []string{"10.0.0.1:3104"}, Topic: topic})
 	sub := w.NewSubscriber()
 	lst := &listener{}
